@@ -1,2 +1,43 @@
+"""C11 extras: agreement of native result codes with the Python mapping; C error discipline."""
+import ast
+
+from ..core import AnalysisError
+from ..pydb import norm, walk_no_nested
+from .. import crules
+
+
 def run(check, ctx):
-    pass
+    repo = ctx.repo
+    cdb = ctx.cdb
+    tu = cdb.tu("src/raw_ctr.c")
+    code = cdb.macro_int(tu, "ERR_CTR_REPEATED_KEY_STREAM")
+    mod = repo.module("Crypto.Cipher._mode_ctr")
+    for meth in ("encrypt", "decrypt"):
+        f = repo.func(mod, "CtrMode." + meth)
+        lits = [n.comparators[0].value for n in walk_no_nested(f)
+                if isinstance(n, ast.Compare) and isinstance(n.comparators[0], ast.Constant)
+                and isinstance(n.comparators[0].value, int) and norm(n.left) == "result"]
+        check.ob("F", "F|code|ctr.%s" % meth, lits == [code], mod.path, f.lineno,
+                 extracted="Python maps result == %s to OverflowError; C macro ERR_CTR_REPEATED_KEY_STREAM = %s" % (
+                     [hex(x) for x in lits], hex(code)),
+                 expected="the literal in _mode_ctr.py is the value the C code returns when a counter block would repeat")
+    # the native callers on the counter paths keep testing the status of their callees
+    n = crules.error_discipline(check, cdb, only_tus=("chacha20.c", "raw_ctr.c", "Salsa20.c", "raw_ocb.c"))
+    if n < 5:
+        raise AnalysisError("C error discipline: only %d reference edges on the counter paths" % n)
+    # every non-zero status of the block-counter core is propagated (no error code filtered out)
+    m = 0
+    for src, caller, callee in (("src/chacha20.c", "chacha20_seek", "chacha20_core"),
+                                ("src/chacha20.c", "chacha20_encrypt", "chacha20_core")):
+        m += crules.status_propagated(check, cdb, src, caller, callee)
+    if m < 2:
+        raise AnalysisError("status propagation idiom not found in chacha20.c (%d)" % m)
+    # the counter-wrap code is produced in CTR_encrypt
+    F = cdb.functions()
+    f = F.get("CTR_encrypt")
+    if not f:
+        raise AnalysisError("anchor vanished: CTR_encrypt")
+    body = "\n".join(f[0].lines)
+    check.ob("F", "F|code|ctr.produced", ("i32 %d" % code) in body, "src/raw_ctr.c", 0,
+             extracted="CTR_encrypt %s the value %s" % ("returns/stores" if ("i32 %d" % code) in body else "never produces", hex(code)),
+             expected="CTR_encrypt reports ERR_CTR_REPEATED_KEY_STREAM")
